@@ -81,6 +81,10 @@ def generate(rng):
         scn.pop('twin', None)
         scn['sws'] = None
     ops = scn['ops']
+    aw_ = [i for i, o in enumerate(ops) if o['op'] == 'expect' and o.get('async')]
+    if len(aw_) >= 2 and rng.random() < 0.05:
+        scn['second_loop_at'] = rng.randint(aw_[0] + 1, aw_[-1])
+        return scn
     if rng.random() < 0.12:
         # the application prepares awaitables up front (a list of steps) and awaits them later, other operations in between:
         # making the awaitable does nothing, the call happens when it is awaited
@@ -108,7 +112,7 @@ def run(scn, clauses=None):
         def delivered(s):
             # blocking calls record what read_nonblocking returned (one engine read may be
             # several os reads); the asyncio transport's deliveries are recorded here
-            if not state['sync']:
+            if not state['sync'] and not getattr(child, '_in_rnb', 0):
                 apt = getattr(child, 'async_pw_transport', None)
                 if apt and apt[0].fut.done():
                     late.add(len(child.chunks))
@@ -119,6 +123,18 @@ def run(scn, clauses=None):
         loop.set_exception_handler(lambda lp, ctx: None)
 
         prepared = {}
+        readable0 = {}
+
+        def readable_now():
+            """Kernel truth: bytes the child's descriptor holds ready to be read right now (None: not known)."""
+            try:
+                if scn.get('transport') == 'pty' and r.pty is not None:
+                    return len(r.pty.out)
+                if scn.get('transport') == 'fd' and getattr(r, 'fd_pipe', None) is not None:
+                    return len(r.fd_pipe.p.buf)
+            except Exception:
+                return None
+            return None
 
         def make_awaitable(op):
             api = op.get('api', 'expect')
@@ -142,6 +158,7 @@ def run(scn, clauses=None):
             pre = prepared.pop(k, None)
             pl = pre[1] if pre is not None else r.build_plist(op['pats'], exact)
             c0, t0 = len(child.chunks), w.now
+            readable0[t0] = readable_now()
             rec = {'k': k, 'op': 'aexpect', 't0': w.now}
             w.begin_op(k)
             w.note('op', (k, 'aexpect'))
@@ -201,8 +218,8 @@ def run(scn, clauses=None):
                 raise HarnessError('prepare: an awaited expect is prepared before an earlier operation')
             prep_plan.setdefault(jj_, []).append(kk_)
 
-        async def driver():
-            for k, op in enumerate(scn['ops']):
+        async def driver(k_from=0, k_to=None):
+            for k, op in list(enumerate(scn['ops']))[k_from:k_to]:
                 state['k'] = k
                 for kk in prep_plan.get(k, []):
                     if not child.closed:
@@ -222,9 +239,11 @@ def run(scn, clauses=None):
                     finally:
                         state['sync'] = False
                 if rec['out'] in ('HANG', 'EXC'):
+                    state['halt'] = True
                     break
                 last = r.calls[-1] if r.calls else None
                 if last is not None and (last['after'] is EOF or (last['outcome'][0] == 'exc' and isinstance(last['outcome'][1], EOF))):
+                    state['halt'] = True
                     break            # scope of the property ends at the first EOF
                 if child.closed and False:
                     # the asyncio transport saw the end of the stream while no call was
@@ -243,18 +262,40 @@ def run(scn, clauses=None):
                                 and last['outcome'][0] != 'ret':
                             state['idle_eof_bad'] = engine._call_brief(last)
                     break
+        cut = scn.get('second_loop_at')
+        loop2 = None
+        if cut is not None:
+            # the application runs its steps under two event loops, one after the other (asyncio.run() twice)
+            cut = int(cut)
+            if scn.get('prepare') or not (0 < cut < len(scn['ops'])) or \
+                    not any(o.get('op') == 'expect' and o.get('async') for o in scn['ops'][:cut]) or \
+                    not any(o.get('op') == 'expect' and o.get('async') for o in scn['ops'][cut:]):
+                raise HarnessError('second_loop_at: awaited calls on both sides, no prepared awaitables')
         try:
-            loop.run_until_complete(driver())
+            if cut is None:
+                loop.run_until_complete(driver())
+            else:
+                loop.run_until_complete(driver(0, cut))
+                loop.close()                      # (what asyncio.run() does when its coroutine is done)
+                if not state.get('halt') and not child.closed:
+                    loop2 = aioloop.SimLoop()
+                    loop2.set_exception_handler(lambda lp, ctx: None)
+                    r.w.probe('second_event_loop_on_the_same_object')
+                    state['loop2'] = True
+                    loop2.run_until_complete(driver(cut, None))
         except SimHang as e:
             state['stop'] = e
         finally:
             for co_, _pl in prepared.values():
                 co_.close()          # prepared, never reached
-            loop.detach_all()
-            try:
-                loop.close()
-            except Exception:
-                pass
+            for lp_ in (loop, loop2):
+                if lp_ is None:
+                    continue
+                lp_.detach_all()
+                try:
+                    lp_.close()
+                except Exception:
+                    pass
         vs = engine.evaluate(r, clauses)
         out = []
         for v in vs:
@@ -265,6 +306,15 @@ def run(scn, clauses=None):
         for c in r.calls:
             if not c.get('async'):
                 continue
+            # timeout 0 "still examines pending text and whatever is immediately readable", as the blocking call does
+            kd0, vl0 = c['outcome']
+            if c['timeout'] == 0 and not out and readable0.get(c['t0']) and \
+                    ((kd0 == 'exc' and isinstance(vl0, TIMEOUT)) or (kd0 == 'ret' and c.get('after') is TIMEOUT)):
+                mine = [i for i in range(c['c0'], c['c1']) if i not in late]
+                if not mine:
+                    out.append(Violation('C14.zero', 'awaited call with timeout 0 reported TIMEOUT without looking at the %d bytes that were '
+                                         'readable when it began (the blocking call reads them and searches)' % readable0[c['t0']],
+                                         None, {'call': engine._call_brief(c)}))
             to = c['timeout']
             if to == -1:
                 to = c['inst_timeout']
